@@ -18,7 +18,11 @@ RULE = ("a real fbserver.Server per configuration (child process of the harness;
         "most messages sent over both transports; odd stream (1 in 5): no question, two/three questions, QR set, opcodes "
         "NOTIFY/UPDATE/STATUS/IQUERY, records in the request's answer/authority/additional sections, two OPT records, "
         "all header flags set; the same wire message is given in-process to a bare FBDNSDB over the same database with the "
-        "listener's max answer; non-trivial = distinct (configuration, listener, transport, request bytes without the id)")
+        "listener's max answer; sections are compared as multisets of (lower-cased owner, type, class, ttl, rdata), the "
+        "question section, header bits, id and wire length exactly; "
+        "opt-in (environment C20_CACHE_CONFIGS=1, not part of the default run): two configurations with the response cache "
+        "enabled (WRS timeout 0 and 60) plus a fixed sequence asking the same address set on the max-answer-1 listener first; "
+        "non-trivial = distinct (configuration, listener, transport, request bytes without the id)")
 TRUSTED_BASE = [
     "the database handler is a parameter of the chain theorems (serve : max answer -> env -> request -> outcome); in the run its "
     "value is the message the bare FBDNSDB hands to WriteMsg for the same wire request and the same transport semantics",
@@ -148,7 +152,7 @@ def nontrivial(c):
     if c.get("req_unpack_fails"):
         return None
     return [c["cfg"]["whoami"], c["cfg"]["refuse_any"], c["cfg"]["accept_all"], c["cfg"]["driver"], c["cfg"]["compress"],
-            c["ip"], c["proto"], c["wire"][2:]]
+            c["cfg"].get("cache", False), c["ip"], c["proto"], c["wire"][2:]]
 
 
 def _path(c):
@@ -178,4 +182,12 @@ def shrink_candidates(c):
 
 
 def known_finding(case, findings):
+    """Response cache with a WRS timeout: the cache key (location, type, class, name) has no max answer in it, so a
+    weighted answer computed for one listener is served to listeners with another max answer.  Only reachable in the
+    opt-in cache configurations; matched to an open C20 finding whose classifier mentions the cache."""
+    cfg = case.get("cfg", {})
+    if cfg.get("cache") and cfg.get("wrs_timeout", 0) > 0 and _path(case) == "db":
+        for f in findings:
+            if "cache" in (f.get("classifier", "") + f.get("what", "")).lower():
+                return f
     return None
